@@ -2,7 +2,7 @@
 # E-mail: system252001@yahoo.es
 # License: GNU GPL v2 (see LICENSE file for details).
 
-from typing import List, Dict, Any
+from typing import List, Dict, Any, Tuple
 import logging
 from ..vwlb import Marker, parse_vwlb_data
 from ..riff import RiffData, parse_riff, InputMAP, MemoryMAP, \
@@ -239,6 +239,9 @@ def parse_dir_file_data(byte_order: str, rifx_offset, \
     
     # Read the casting elements
     cast: List[Dict[str, Any]] = []
+    # The bitmaps are decoded once every cast member is known: a bitmap may
+    # use the palette of a member stored after it
+    pending_bitmaps: List[Tuple[Dict[str, Any], int, bytes]] = []
     for cas_index in cas_elements:
         if cas_index == 0:
             logging.debug('Empty CAST element!')
@@ -278,18 +281,13 @@ def parse_dir_file_data(byte_order: str, rifx_offset, \
                     logging.info("Thumnail are ignored!")
                 
                 elif res.chunkID == 'BITD':
-                    clutData = bytes()
                     # Only 8 bits bitmaps have a palette, and it can be a
                     # name instead of a casting member number
                     paletteId = 0
                     palette = str(castData.get('palette', ''))
                     if palette.lstrip('-').isdigit():
                         paletteId = int(palette)
-                    if paletteId > 0:
-                        p = paletteId - 1
-                        clutData = cast[p]['palette']
-                    bmp_data: bytes = bitd2bmp(castData, clutData, chunk.data)
-                    castData['bitmap'] = bmp_data
+                    pending_bitmaps.append((castData, paletteId, chunk.data))
                     
                 else:
                     raise ValueError("Unknown related element: " + res.chunkID)
@@ -298,6 +296,11 @@ def parse_dir_file_data(byte_order: str, rifx_offset, \
         
         cast.append(castData)
     
+    for castData, paletteId, bitd_data in pending_bitmaps:
+        clutData = bytes()
+        if paletteId > 0:
+            clutData = cast[paletteId - 1]['palette']
+        castData['bitmap'] = bitd2bmp(castData, clutData, bitd_data)
     
     # Return the DirectorFile structure
     return DirectorFile(info, cast, lingoScr, jsScr, markers, score, fontmap)
